@@ -50,9 +50,33 @@ func HexList(ss []string) string {
 	return strings.Join(out, ",")
 }
 
-// EncodeItems turns an item list ("-" or ','-joined "<khex>=<vhex>" / "!") into a raw
-// application/x-www-form-urlencoded string in the given order; "!" becomes a segment with an
-// invalid percent escape.
+func escapeAll(s string) string {
+	var b strings.Builder
+	for i := 0; i < len(s); i++ {
+		fmt.Fprintf(&b, "%%%02X", s[i])
+	}
+	return b.String()
+}
+
+func escapeNonAlnum(s string) string {
+	var b strings.Builder
+	for i := 0; i < len(s); i++ {
+		c := s[i]
+		if c >= '0' && c <= '9' || c >= 'a' && c <= 'z' || c >= 'A' && c <= 'Z' {
+			b.WriteByte(c)
+		} else {
+			fmt.Fprintf(&b, "%%%02X", c)
+		}
+	}
+	return b.String()
+}
+
+// EncodeItems turns an item list ("-" or ','-joined items) into a raw
+// application/x-www-form-urlencoded string in the given order. An item is "!" (a segment with an
+// invalid percent escape) or <khex><sep><vhex>; the separator selects one of several valid
+// encodings of the same key/value pair: '=' url.QueryEscape for both, '~' every byte of the key
+// percent-escaped, '^' every non-alphanumeric byte of the key and every byte of the value
+// percent-escaped.
 func EncodeItems(spec string) string {
 	if spec == "-" || spec == "" {
 		return ""
@@ -63,11 +87,19 @@ func EncodeItems(spec string) string {
 			segs = append(segs, "%zz=1")
 			continue
 		}
-		kv := strings.SplitN(it, "=", 2)
-		if len(kv) != 2 {
+		i := strings.IndexAny(it, "=~^")
+		if i < 0 {
 			panic("bad item " + it)
 		}
-		segs = append(segs, url.QueryEscape(Unhex(kv[0]))+"="+url.QueryEscape(Unhex(kv[1])))
+		k, v := Unhex(it[:i]), Unhex(it[i+1:])
+		switch it[i] {
+		case '=':
+			segs = append(segs, url.QueryEscape(k)+"="+url.QueryEscape(v))
+		case '~':
+			segs = append(segs, escapeAll(k)+"="+url.QueryEscape(v))
+		case '^':
+			segs = append(segs, escapeNonAlnum(k)+"="+escapeAll(v))
+		}
 	}
 	return strings.Join(segs, "&")
 }
